@@ -68,6 +68,12 @@ def sites(F, crate, roots, forbid, stop=None, asserts=ASSERT_KINDS):
         if k in per_fn:
             continue
         per_fn[k] = i
+        # constructs of a helper that did not exist on the reviewed tree count for the function it was extracted from
+        owner, j = k, i
+        gone = getattr(F, "absorbed_fns", {})
+        while owner in gone and seen.get(j) is not None:
+            j = seen[j]
+            owner = norm(inst[j]["key"])
         ordn = collections.Counter()
         items = []
         for e in sorted(r["edges"], key=lambda e: e[0]):
@@ -93,7 +99,7 @@ def sites(F, crate, roots, forbid, stop=None, asserts=ASSERT_KINDS):
             ordn[what] += 1
             key = "%s|%s|%d" % (k, what, ordn[what])
             f = sp.get("file", "?")
-            found[key] = {"fn": k, "bb": bb, "kind": kind, "what": what, "loc": "%s:%s" % (f, sp.get("lo")), "macros": sp.get("macros", []),
+            found[key] = {"fn": k, "owner": owner, "bb": bb, "kind": kind, "what": what, "loc": "%s:%s" % (f, sp.get("lo")), "macros": sp.get("macros", []),
                           "via": chain_of(inst, seen, i)}
     return found, len(rts), len(seen), sorted({norm(inst[r]["key"]) for r in rts})
 
@@ -120,7 +126,7 @@ def r4(ctx, rid, crate, roots, forbid, allow, stop=None, floor_roots=1, floor_re
             nauto += 1
             autos[why.split(":")[0]] += 1
             continue
-        groups["%s|%s" % (s["fn"], s["what"])].append(s)
+        groups["%s|%s" % (s.get("owner") or s["fn"], s["what"])].append(s)
     for g, lst in sorted(groups.items()):
         al = allow.get(g)
         if al is not None and len(lst) <= al[0]:
@@ -207,7 +213,7 @@ def _fold(op, a, b):
 def auto_discharge(ctx, s):
     """Site-local proofs that a construct cannot fail; returns 'class: reason' or None."""
     F = ctx.F
-    fn = F.fns.get(s["fn"])
+    fn = F.fns.get(s["fn"]) or getattr(F, "absorbed_fns", {}).get(s["fn"])
     if fn is None:
         return None
     blk = fn["blocks"][s["bb"]] if s["bb"] < len(fn["blocks"]) else None
